@@ -203,6 +203,18 @@ def tracker_corruptions(runs):
                 d["res"] = -1
                 break
         out.append(("TrackerTrace: a lookup misses a field that is present", c))
+    # the splitters: a synthetic run in the recorded format (the split traces are not kept on disk), first
+    # genuine-looking (must be accepted), then with one occurrence lost / one item without its marker
+    rid = max((r[0].get("id", 0) for r in runs), default=0) + 1
+    def split_run(i, split, rsplit):
+        return [{"e": "begin", "id": rid + i, "map": []}, dict({"e": "split", "cfg": "MT101"}, **split),
+                dict({"e": "rsplit", "cfg": "MT101"}, **rsplit), {"e": "end"}]
+    good_s = {"n": 5, "na": 2, "nb": 3, "nc": 0, "dup": 0, "lost": 0, "invented": 0}
+    good_r = {"expected": 3, "total": 3, "items": 1, "markers": 1, "dup": 0, "invented": 0, "disorder": 0, "headless": 0}
+    out.append(("TrackerTrace: a well-formed split / item record (control: must be accepted)", clone(runs) + [split_run(0, good_s, good_r)], "accepted"))
+    out.append(("TrackerTrace: split_into_sequences loses one occurrence", clone(runs) + [split_run(1, dict(good_s, nb=2, lost=1), good_r)]))
+    out.append(("TrackerTrace: parse_repetitive_sequence drops the last item", clone(runs) + [split_run(2, good_s, dict(good_r, total=0, items=0))]))
+    out.append(("TrackerTrace: an item does not open with its marker", clone(runs) + [split_run(3, good_s, dict(good_r, headless=1))]))
     return out
 
 
@@ -237,11 +249,13 @@ def run():
         if v != "accepted":
             bad += 1
             continue
-        for name, c in CORRUPT[module](runs):
+        for exp in CORRUPT[module](runs):
+            name, c = exp[0], exp[1]
+            want_accepted = len(exp) > 2 and exp[2] == "accepted"
             p = os.path.join(wd, "corrupt.ndjson")
             write(p, c)
             v = verdict(wd, p, module, cfg)
-            ok = v != "accepted"
+            ok = (v == "accepted") if want_accepted else (v != "accepted")
             bad += 0 if ok else 1
             rows.append((module, name, v, ok))
     for module, name, v, ok in rows:
